@@ -223,3 +223,216 @@ def summarize(recs):
         if c != "ok":
             classes.setdefault(c, []).append(r)
     return outcomes, classes
+
+
+# ---------------------------------------------------------------------------------------------------------
+# glue for props/C19.py: known-site table, the check itself, replays
+
+SITES_FILE = os.path.join(CORPUS, "known_sites.txt")
+CRASHES = ("signal", "asan", "foreign", "double", "exit")
+
+
+def uses_document(xsl):
+    try:
+        return "document(" in open(xsl, encoding="utf-8", errors="replace").read()
+    except OSError:
+        return False
+
+
+def site_key(rec, xsl=None, mode="single"):
+    """Stable name of a non-contained outcome: the kind of outcome + the innermost frames of the refused
+    allocation (+ the innermost destructor frame when the allocation was made inside a destructor).  No line
+    numbers, no addresses, no allocation index.  In persist mode the allocation that matters for a terminate
+    is the LAST refused one."""
+    oc = rec.get("outcome") or "?"
+    sig, dtor = rec.get("sig") or "-", rec.get("dtor") or "-"
+    if mode == "persist" and oc == "terminate" and (rec.get("lsig") or "-") != "-":
+        sig, dtor = rec.get("lsig"), rec.get("ldtor") or "-"
+    frames = sig.split("<")
+    if oc in ("clean", "notreached"):
+        return "after-bad@" + "<".join(frames[:2])
+    if oc == "terminate":
+        if dtor != "-":
+            return "terminate@%s|%s" % (frames[0], dtor.split("<")[-1])
+        return "terminate@" + "<".join(frames[:2])
+    if oc == "swallowed":
+        return "swallowed:%s@%s" % (rec.get("out"), "document()" if (xsl and uses_document(xsl)) else "<".join(frames[:2]))
+    if oc.split(":")[0] in CRASHES:
+        return "crash@" + "<".join(frames[:4])
+    return "%s@%s" % (oc, "<".join(frames[:2]))
+
+
+def load_sites():
+    """{key: finding id} from corpus/C19/known_sites.txt (lines: <finding id> <key>)"""
+    sites = {}
+    if os.path.exists(SITES_FILE):
+        for ln in open(SITES_FILE):
+            ln = ln.strip()
+            if ln and not ln.startswith("#"):
+                kid, _, key = ln.partition(" ")
+                sites[key.strip()] = kid
+    return sites
+
+
+def plan(rng, thorough):
+    """[(scenario, xsl, xml)]"""
+    pool = list(POOL)
+    pick = lambda n: rng.sample(pool, n)
+    pairs = [("ctor",) + pool[0]]
+    if not thorough:
+        pairs += [("compile",) + pick(1)[0], ("parse",) + pick(1)[0]]
+        pairs += [("transform",) + p for p in pick(3)]
+        pairs += [("transform_compiled",) + pick(1)[0], ("two",) + pick(1)[0]]
+    else:
+        pairs += [("compile",) + p for p in pool] + [("parse",) + p for p in pool[:3]]
+        pairs += [("transform",) + p for p in pool]
+        pairs += [("transform_compiled",) + p for p in pick(3)] + [("two",) + p for p in pick(2)]
+    pairs += [("fail_message",) + FAIL_INPUTS["fail_message"], ("fail_xpath",) + FAIL_INPUTS["fail_xpath"]]
+    return pairs
+
+
+def replay_line(scenario, xsl, xml, mode, k, note=""):
+    return "sweep %s %s %s %s %d%s" % (scenario, os.path.basename(xsl), os.path.basename(xml), mode, k,
+                                       ("   # " + note) if note else "")
+
+
+def check(ctx, known, widen=False, exe=None):
+    """Fault enumeration on the real library.  Returns (new_failures [dict(case, what)], {finding id: hits})."""
+    new, hits = [], {}
+    if exe is None:
+        exe, ok, log = core.build_harness("mem_sweep", "plain")
+        if not ok:
+            ctx.broken.append("oracle: harness/mem_sweep.cpp does not compile against the working tree: " + log[-400:])
+            return new, hits
+    sites = load_sites()
+    if not sites:
+        ctx.broken.append("oracle: corpus/C19/known_sites.txt is missing or empty")
+    thorough = ctx.thorough or widen
+    pairs = plan(ctx.rng, thorough)
+    children = 0
+    handler_new = set()
+    summary = {}
+
+    def one_pair(scenario, xsl, xml, mode, ks_of, env=None, exe_=None, with_plain=False):
+        nonlocal children
+        plain_ref = None
+        exe_ = exe_ or exe
+        c = count(exe_, scenario, xsl, xml, env=env)
+        tag = "%s/%s" % (scenario, os.path.basename(xsl))
+        if c.get("N") is None:
+            new.append({"case": replay_line(scenario, xsl, xml, "count", 0), "what": "counting run failed: " + c.get("error", "?")})
+            return []
+        ctx.cov["evaluations"] += 1
+        bal = (c.get("outstanding"), c.get("foreign"), c.get("double"))
+        if bal != (0, 0, 0):
+            new.append({"case": replay_line(scenario, xsl, xml, "count", 0),
+                        "what": "not balanced without any refusal: outstanding=%s foreign=%s double=%s after ~XalanTransformer %s" % (bal + (c.get("badfree") or "",))})
+        want_fail = scenario.startswith("fail_")
+        if (c.get("status") != 0) != want_fail:
+            new.append({"case": replay_line(scenario, xsl, xml, "count", 0), "what": "unexpected API status %s" % c.get("status")})
+        for hs in c.get("handler_sigs", []):
+            if hs.startswith("catch:"):
+                key = "handler@" + "<".join(hs[6:].split("<")[:3])
+                if key not in sites:
+                    handler_new.add(key)
+        ks = ks_of(c["N"])
+        recs = sweep(exe_, scenario, xsl, xml, ks, mode=mode, env=env)
+        children += len(recs)
+        if with_plain:
+            plain_ref = {r["k"]: r for r in sweep(exe, scenario, xsl, xml, ks, mode=mode)}
+        cnt = collections.Counter()
+        for r in recs:
+            cls, detail = classify(r)
+            ctx.count("sweep:%s:%s" % (scenario, r.get("outcome", "?").split(":")[0]))
+            cnt[r.get("outcome")] += 1
+            if cls == "ok":
+                continue
+            key = site_key(r, xsl, mode)
+            if plain_ref is not None:
+                # sanitizer pass: the same index must also be a non-contained outcome of the plain library
+                pr = plain_ref.get(r["k"])
+                key = site_key(pr, xsl, mode) if (pr is not None and classify(pr)[0] != "ok") else "asan-only:" + key
+            kid = sites.get(key)
+            if kid and kid in known:
+                hits[kid] = hits.get(kid, 0) + 1
+            else:
+                new.append({"case": replay_line(scenario, xsl, xml, mode, r["k"], key),
+                            "what": "%s (%s); not a known site" % (cls, detail), "key": key})
+        summary["%s %s%s" % (tag, mode, " asan" if with_plain else "")] = dict(cnt, N=c["N"])
+        return recs
+
+    for scenario, xsl, xml in pairs:
+        one_pair(scenario, xsl, xml, "single",
+                 lambda N: choose_ks(N, ctx.rng, quick=not thorough))
+    if handler_new:
+        ctx.broken.append("tie: allocation sites inside catch handlers that are not in corpus/C19/known_sites.txt: " + "; ".join(sorted(handler_new))[:600])
+    if thorough or handler_new:
+        # every allocation from the k-th on is refused until the API call returns: exercises allocations made in
+        # handlers and during unwinding.  Almost every index ends in std::terminate through the K8 sites, so only
+        # a sample is run and only non-K8 outcomes matter.
+        for scenario in ("fail_xpath", "fail_message", "transform"):
+            xsl, xml = FAIL_INPUTS.get(scenario, POOL[0])
+            one_pair(scenario, xsl, xml, "persist", lambda N: choose_ks(N, ctx.rng, quick=True, first=20, strat=60))
+    if ctx.tier == "thorough":
+        ok_a, log_a = core.build_lib("asan")
+        exe_a, ok_h, log_h = core.build_harness("mem_sweep", "asan") if ok_a else (None, False, log_a)
+        if not ok_h:
+            ctx.broken.append("oracle: asan variant of the sweep does not build: " + (log_h or log_a)[-300:])
+        else:
+            env = env_for("asan")
+            for scenario, xsl, xml in [("ctor",) + POOL[0], ("parse",) + POOL[0], ("transform",) + POOL[2], ("fail_xpath",) + FAIL_INPUTS["fail_xpath"]]:
+                one_pair(scenario, xsl, xml, "single", lambda N: choose_ks(N, ctx.rng, quick=True, first=40, strat=80),
+                         env=env, exe_=exe_a, with_plain=True)
+    ctx.notes["sweep_children"] = children
+    ctx.notes["sweep_summary"] = summary
+    return new, hits
+
+
+def replay(lines, exe=None):
+    """lines: 'sweep <scenario> <xsl> <xml> <mode> <k>'; returns 1 when some line does not end in a contained
+    failure"""
+    if exe is None:
+        core.build_lib("plain")
+        exe, ok, log = core.build_harness("mem_sweep", "plain")
+    rc = 0
+    for ln in lines:
+        t = ln.split("#")[0].split()
+        if len(t) < 6:
+            continue
+        _, scenario, xsl, xml, mode, k = t[:6]
+        xsl, xml = _p(xsl), _p(xml)
+        if mode == "count":
+            c = count(exe, scenario, xsl, xml)
+            print({k_: v for k_, v in c.items() if k_ != "raw"})
+            if (c.get("outstanding"), c.get("foreign"), c.get("double")) != (0, 0, 0):
+                rc = 1
+            continue
+        for r in sweep(exe, scenario, xsl, xml, [int(k)], mode=mode):
+            cls, detail = classify(r)
+            print("%s %s %s k=%s -> %s %s key=%s" % (scenario, os.path.basename(xsl), mode, k, cls, detail, site_key(r, xsl)))
+            if cls != "ok":
+                rc = 1
+    return rc
+
+
+def regen_sites(out=None):
+    """Manual tool (never called by the check): full single-mode sweeps of every scenario x input and full
+    persist-mode sweeps of the three persist scenarios on the CURRENT tree; returns {key: example} so that a
+    human assigns every key to a finding."""
+    exe, ok, log = build("plain")
+    res = {}
+    pairs = [("ctor",) + POOL[0]]
+    for sc in ("compile", "parse", "transform", "transform_compiled", "two"):
+        pairs += [(sc,) + p for p in POOL]
+    pairs += [("fail_message",) + FAIL_INPUTS["fail_message"], ("fail_xpath",) + FAIL_INPUTS["fail_xpath"]]
+    jobs = [(sc, xsl, xml, "single") for sc, xsl, xml in pairs]
+    jobs += [(sc,) + FAIL_INPUTS.get(sc, POOL[0]) + ("persist",) for sc in ("fail_xpath", "fail_message", "transform")]
+    for scenario, xsl, xml, mode in jobs:
+        c = count(exe, scenario, xsl, xml)
+        for hs in c.get("handler_sigs", []):
+            if hs.startswith("catch:"):
+                res.setdefault("handler@" + "<".join(hs[6:].split("<")[:3]), (scenario, os.path.basename(xsl), mode, 0, hs))
+        for r in sweep(exe, scenario, xsl, xml, range(1, c["N"] + 1), mode=mode):
+            if classify(r)[0] != "ok":
+                res.setdefault(site_key(r, xsl, mode), (scenario, os.path.basename(xsl), mode, r["k"], r.get("sig")))
+    return res
